@@ -421,11 +421,15 @@ class Ovld:
         return defns
 
     def analyze_arguments(self):
-        self.argument_analysis = ArgumentAnalyzer()
+        # The analysis becomes visible when it is complete: this can be
+        # called (through inspect.signature) while another thread uses or
+        # builds the function
+        analysis = ArgumentAnalyzer()
         for key, fn in list(self.defns.items()):
-            self.argument_analysis.add(fn)
-        self.argument_analysis.compile()
-        return self.argument_analysis
+            analysis.add(fn)
+        analysis.compile()
+        self.argument_analysis = analysis
+        return analysis
 
     def mkdoc(self):
         docs = [fn.__doc__ for fn in self.defns.values() if fn.__doc__]
